@@ -259,7 +259,11 @@ impl World {
                 let gcm = Gcm::new(self.key);
                 let sealed = *kind == "sealedv1";
                 let c = self.chunk;
-                let mut r = Rng::new(plain.len() as u64 ^ 0x1e9ac7);
+                // fresh per object: from the op's data seed, the key and a per-world counter (the harness, like the
+                // old writers, must never reuse a base nonce under one key)
+                let seed_n: u64 = seed.parse().map_err(|_| "seed")?;
+                let loc_h = loc.bytes().fold(0xcbf29ce484222325u64, |h, b| (h ^ b as u64).wrapping_mul(0x100000001b3));
+                let mut r = Rng::new(seed_n ^ loc_h ^ ((self.history.len() as u64) << 40) ^ 0x1e9ac7);
                 let mut base = [0u8; 12];
                 for b in base.iter_mut() {
                     *b = r.next_u64() as u8;
